@@ -253,6 +253,13 @@ func (s *state) contractEnv(fc *funcContract, fn *ssa.Function, args []Val, resu
 	} else if fc != nil {
 		pkg = u.eng.typesPkg(fc.pkgPath)
 	}
+	if fc != nil && fn != nil && fn.Pkg != nil && fc.pkgPath != "" && fc.pkgPath != fn.Pkg.Pkg.Path() {
+		// an assumed contract for a function of another package: names resolve in the
+		// package whose contract file states it
+		if p := u.eng.typesPkg(fc.pkgPath); p != nil {
+			pkg = p
+		}
+	}
 	e := &env{u: u, st: s, old: s.old, vars: map[string]Val{}, pkg: pkg}
 	if fn != nil && args != nil {
 		for i, p := range fn.Params {
